@@ -181,6 +181,11 @@ struct Extractor {
       std::string B = pathOf(ME->getBase());
       if (B.empty())
         return "";
+      // (&x)->f is x.f ; (*p).f is p->f
+      if (ME->isArrow() && B[0] == '&')
+        return B.substr(1) + "." + ME->getMemberDecl()->getNameAsString();
+      if (!ME->isArrow() && B[0] == '*')
+        return B.substr(1) + "->" + ME->getMemberDecl()->getNameAsString();
       return B + (ME->isArrow() ? "->" : ".") +
              ME->getMemberDecl()->getNameAsString();
     }
